@@ -1,13 +1,20 @@
 from yowsup.structs import ProtocolEntity, ProtocolTreeNode
 class IbProtocolEntity(ProtocolEntity):
     '''
-    <ib></ib>
+    <ib from="s.whatsapp.net"></ib>
     '''
-    def __init__(self):
+    def __init__(self, _from = None):
         super(IbProtocolEntity, self).__init__("ib")
-    
+        self._from = _from
+
+    def getFrom(self):
+        return self._from
+
     def toProtocolTreeNode(self):
-        return self._createProtocolTreeNode({}, None, None)
+        attribs = {}
+        if self._from is not None:
+            attribs["from"] = self._from
+        return self._createProtocolTreeNode(attribs, None, None)
 
     def __str__(self):
         out  = "Ib:\n"
@@ -15,4 +22,4 @@ class IbProtocolEntity(ProtocolEntity):
 
     @staticmethod
     def fromProtocolTreeNode(node):
-        return IbProtocolEntity()
+        return IbProtocolEntity(node["from"])
